@@ -8,17 +8,16 @@ Every layer object holds the shared raw bytes (a parameter `raw` here: they are 
 its parsed header and a lazily cached `inner` object.  Scripts reach objects only through the packet, so the graph is a
 chain and is modelled as a tree: `Obj.layer h off inner`, with `inner = .none` for "nothing cached yet".
 
-* a layer getter (`eth`, `vlan`, `ipv4`, `ipv6`, `tcp`, `udp`) returns the cached inner **whatever its kind**, otherwise
-  parses at `off` **without** looking at the EtherType / protocol / next-header field and caches the result — error
-  objects included;
-* only `$n` (`get_inner`) dispatches on the type fields; for a VLAN whose EtherType is IPv6 it asks the VLAN object for
-  its `ipv6` property, which does not exist: a runtime error;
+* a named layer getter (`eth`, `vlan`, `ipv4`, `ipv6`, `tcp`, `udp`) first looks at the type field (EtherType / protocol /
+  next header): when it selects another layer the getter yields `null` and touches nothing; otherwise it returns the
+  cached inner object, or parses at `off` and caches the result — error objects included; `pkt.eth` has no type field
+  to look at;
+* `$n` (`get_inner`) follows the cache, and below it the type fields;
 * assigning to a layer property replaces the cached inner by the assigned value, whatever it is;
 * assigning to `payload` is accepted, ignored, and yields the payload;
-* serialisation prefers the cached inner (TCP and UDP always append the raw bytes after their header); an error object
-  and `null` serialise to nothing;
-* IPv4 `from_bytes` indexes the options without a length check (a panic; nothing is cached then), puts the payload at
-  `off + ihl*4` with no lower bound; TCP puts it at `off + 20` whatever the data offset.
+* serialisation prefers the cached inner object unless it is an error object (then, as when nothing is cached, the raw
+  bytes after the payload offset are written); TCP and UDP always append the raw bytes after their header;
+* IPv4 and TCP headers are `max(length field · 4, 20)` bytes long; a header that runs past the capture is an error object.
 -/
 namespace P2sh.Proto
 open P2sh
@@ -70,6 +69,7 @@ def layerProp : Hdr → PP → Option LayerKind
   | .eth _, .ipv6 => some .ipv6
   | .vlan _, .vlan => some .vlan
   | .vlan _, .ipv4 => some .ipv4
+  | .vlan _, .ipv6 => some .ipv6
   | .ipv4 _, .udp => some .udp
   | .ipv4 _, .tcp => some .tcp
   | .ipv4 _, .ipv6 => some .ipv6
@@ -77,56 +77,68 @@ def layerProp : Hdr → PP → Option LayerKind
   | .ipv6 _, .tcp => some .tcp
   | _, _ => none
 
-inductive Parsed where
-  | panic
-  | obj (o : Obj)
-
-/-- `<Layer>::from_bytes(rawdata, off)` wrapped the way `exec_prop_*` wraps it -/
-def parseLayer (raw : Bytes) (k : LayerKind) (off : Nat) : Parsed :=
+/-- `<Layer>::from_bytes(rawdata, off)` wrapped the way `exec_prop_*` wraps it: the layer object, or the error object -/
+def parseLayer (raw : Bytes) (k : LayerKind) (off : Nat) : Obj :=
   let len := raw.length
   match k with
-  | .eth => if len < off + 14 then .obj .err else .obj (.layer (.eth (EthHdr.parse (rd raw off))) (off + 14) .none)
-  | .vlan => if len < off + 4 then .obj .err else .obj (.layer (.vlan (VlanHdr.parse (rd raw off))) (off + 4) .none)
+  | .eth => if len < off + 14 then .err else .layer (.eth (EthHdr.parse (rd raw off))) (off + 14) .none
+  | .vlan => if len < off + 4 then .err else .layer (.vlan (VlanHdr.parse (rd raw off))) (off + 4) .none
   | .ipv4 =>
-    if len < off + 20 then .obj .err
-    else
-      let h := Ipv4Hdr.parse (rd raw off)
-      -- `while i < ihl*4 { options.push(rawdata[off + i]) }` when ihl > 5
-      if h.ihl > 5 ∧ len < off + h.ihl * 4 then .panic
-      else .obj (.layer (.ipv4 h) (off + h.ihl * 4) .none)
-  | .ipv6 => if len < off + 40 then .obj .err else .obj (.layer (.ipv6 (Ipv6Hdr.parse (rd raw off))) (off + 40) .none)
-  | .tcp => if len < off + 20 then .obj .err else .obj (.layer (.tcp (TcpHdr.parse (rd raw off))) (off + 20) .none)
-  | .udp => if len < off + 8 then .obj .err else .obj (.layer (.udp (UdpHdr.parse (rd raw off))) (off + 8) .none)
+    if len < off + 20 then .err
+    else if len < off + Ipv4Hdr.hdrLen (rd raw off) then .err
+    else .layer (.ipv4 (Ipv4Hdr.parse (rd raw off))) (off + Ipv4Hdr.hdrLen (rd raw off)) .none
+  | .ipv6 => if len < off + 40 then .err else .layer (.ipv6 (Ipv6Hdr.parse (rd raw off))) (off + 40) .none
+  | .tcp =>
+    if len < off + 20 then .err
+    else if len < off + TcpHdr.hdrLen (rd raw off) then .err
+    else .layer (.tcp (TcpHdr.parse (rd raw off))) (off + TcpHdr.hdrLen (rd raw off)) .none
+  | .udp => if len < off + 8 then .err else .layer (.udp (UdpHdr.parse (rd raw off))) (off + 8) .none
 
-/-- what `get_inner` does with a layer that has nothing cached -/
-inductive Disp where
-  | parse (k : LayerKind)
-  | null
-  | rterr
-
-def dispatch : Hdr → Disp
-  | .pcap _ => .parse .eth
+/-- what `get_inner` does with a layer that has nothing cached: parse the layer the type field selects, or yield null -/
+def dispatch : Hdr → Option LayerKind
+  | .pcap _ => some .eth
   | .eth h =>
-    if h.ethertype = 0x8100 then .parse .vlan
-    else if h.ethertype = 0x0800 then .parse .ipv4
-    else if h.ethertype = 0x86DD then .parse .ipv6
-    else .null
+    if h.ethertype = 0x8100 then some .vlan
+    else if h.ethertype = 0x0800 then some .ipv4
+    else if h.ethertype = 0x86DD then some .ipv6
+    else none
   | .vlan h =>
-    if h.ethertype = 0x8100 then .parse .vlan
-    else if h.ethertype = 0x0800 then .parse .ipv4
-    else if h.ethertype = 0x86DD then .rterr       -- "Invalid vlan property 'ipv6'"
-    else .null
+    if h.ethertype = 0x8100 then some .vlan
+    else if h.ethertype = 0x0800 then some .ipv4
+    else if h.ethertype = 0x86DD then some .ipv6
+    else none
   | .ipv4 h =>
-    if h.proto = 17 then .parse .udp
-    else if h.proto = 6 then .parse .tcp
-    else if h.proto = 41 then .parse .ipv6
-    else .null
+    if h.proto = 17 then some .udp
+    else if h.proto = 6 then some .tcp
+    else if h.proto = 41 then some .ipv6
+    else none
   | .ipv6 h =>
-    if h.nh = 17 then .parse .udp
-    else if h.nh = 6 then .parse .tcp
-    else .null
-  | .tcp _ => .null
-  | .udp _ => .null
+    if h.nh = 17 then some .udp
+    else if h.nh = 6 then some .tcp
+    else none
+  | .tcp _ => none
+  | .udp _ => none
+
+/-- the type field of a header and the value a named layer getter wants to see there (`pkt.eth` checks nothing) -/
+def typeWanted : Hdr → LayerKind → Option (Nat × Nat)
+  | .eth h, .vlan => some (h.ethertype, 0x8100)
+  | .eth h, .ipv4 => some (h.ethertype, 0x0800)
+  | .eth h, .ipv6 => some (h.ethertype, 0x86DD)
+  | .vlan h, .vlan => some (h.ethertype, 0x8100)
+  | .vlan h, .ipv4 => some (h.ethertype, 0x0800)
+  | .vlan h, .ipv6 => some (h.ethertype, 0x86DD)
+  | .ipv4 h, .udp => some (h.proto, 17)
+  | .ipv4 h, .tcp => some (h.proto, 6)
+  | .ipv4 h, .ipv6 => some (h.proto, 41)
+  | .ipv6 h, .udp => some (h.nh, 17)
+  | .ipv6 h, .tcp => some (h.nh, 6)
+  | _, _ => none
+
+/-- the type field selects another layer than the one the getter is named after -/
+def typeMismatch (h : Hdr) (k : LayerKind) : Bool :=
+  match typeWanted h k with
+  | some (actual, wanted) => actual != wanted
+  | none => false
 
 /-! ## values -/
 
@@ -183,6 +195,7 @@ def ser (raw : Bytes) : Obj → Bytes
        | _ =>
          match inner with
          | .none => raw.drop off
+         | .err => raw.drop off
          | i => ser raw i)
 
 /-! ## property access -/
@@ -190,7 +203,6 @@ def ser (raw : Bytes) : Obj → Bytes
 inductive StepOut where
   | ok (v : Val)
   | rterr
-  | panic
 
 /-- `GetProp p` on object `o`; `k` is the rest of the path (applied to the object the property yields, which is the
 cached inner object for a layer property), `last` says that nothing follows.  Returns the updated object and the outcome. -/
@@ -198,14 +210,13 @@ def getProp (raw : Bytes) (p : PP) (k : Obj → Obj × StepOut) (last : Bool) : 
   | .layer h off inner =>
     match layerProp h p with
     | some kind =>
-      match inner with
-      | .none =>
-        match parseLayer raw kind off with
-        | .panic => (.layer h off .none, .panic)
-        | .obj ni => (.layer h off (k ni).1, (k ni).2)
-      | .err => (.layer h off (k .err).1, (k .err).2)
-      | .val v => (.layer h off (k (.val v)).1, (k (.val v)).2)
-      | .layer h' off' i' => (.layer h off (k (.layer h' off' i')).1, (k (.layer h' off' i')).2)
+      if typeMismatch h kind then (.layer h off inner, (k (.val .null)).2)
+      else
+        match inner with
+        | .none => (.layer h off (k (parseLayer raw kind off)).1, (k (parseLayer raw kind off)).2)
+        | .err => (.layer h off (k .err).1, (k .err).2)
+        | .val v => (.layer h off (k (.val v)).1, (k (.val v)).2)
+        | .layer h' off' i' => (.layer h off (k (.layer h' off' i')).1, (k (.layer h' off' i')).2)
     | none =>
       let v? : Option Val :=
         if p = .payload then some (bytesVal (raw.drop off)) else (h.get p).map FieldVal.toVal
@@ -244,12 +255,8 @@ def innerStep (raw : Bytes) (k kf : Obj → Obj × StepOut) : Obj → Obj × Ste
     match inner with
     | .none =>
       match dispatch h with
-      | .parse kind =>
-        match parseLayer raw kind off with
-        | .panic => (.layer h off .none, .panic)
-        | .obj ni => (.layer h off (k ni).1, (k ni).2)
-      | .null => (.layer h off .none, (kf (.val .null)).2)
-      | .rterr => (.layer h off .none, .rterr)
+      | some kind => (.layer h off (k (parseLayer raw kind off)).1, (k (parseLayer raw kind off)).2)
+      | none => (.layer h off .none, (kf (.val .null)).2)
     | .err => (.layer h off (k .err).1, (k .err).2)
     | .val v => (.layer h off (k (.val v)).1, (k (.val v)).2)
     | .layer h' off' i' => (.layer h off (k (.layer h' off' i')).1, (k (.layer h' off' i')).2)
@@ -300,10 +307,9 @@ inductive Out where
   | ok (v : Val)
   | bytes (bs : Bytes)
   | rterr
-  | panic
 
 def StepOut.toOut : StepOut → Out
-  | .ok v => .ok v | .rterr => .rterr | .panic => .panic
+  | .ok v => .ok v | .rterr => .rterr
 
 def Pkt.step (p : Pkt) : Step → Pkt × Out
   | .get hd path =>
